@@ -607,6 +607,21 @@ func (s *csrSuite) fund(fee *big.Int) int {
 	return 1
 }
 
+// one hooks value per application instance, for its lifetime, as app.go wires it
+var csrHooksOf = map[*World]csrkeeper.Hooks{}
+
+func (s *csrSuite) csrHooks(w *World) csrkeeper.Hooks {
+	h, ok := csrHooksOf[w]
+	if !ok {
+		for k := range csrHooksOf {
+			delete(csrHooksOf, k) // older worlds are gone
+		}
+		h = w.App.CSRKeeper.Hooks()
+		csrHooksOf[w] = h
+	}
+	return h
+}
+
 func (s *csrSuite) runHook(to *common.Address, gasUsed uint64, gasPrice *big.Int, logs []*ethtypes.Log) {
 	w := s.w
 	from := common.BytesToAddress(w.Users[1].Bytes())
@@ -644,7 +659,7 @@ func (s *csrSuite) runHook(to *common.Address, gasUsed uint64, gasPrice *big.Int
 	preMod, pre := s.modState(), w.Snapshot()
 	out := w.Deliver(func(ctx sdk.Context) error {
 		if via == 0 {
-			return w.App.CSRKeeper.Hooks().PostTxProcessing(ctx, msg, receipt)
+			return s.csrHooks(w).PostTxProcessing(ctx, msg, receipt)
 		}
 		// through the EVM keeper's hook chain (erc20 hook, then csr hook), as ApplyTransaction does
 		return w.App.EvmKeeper.PostTxProcessing(ctx, msg, receipt)
